@@ -29,7 +29,9 @@ func (m *Model) GetBrightness(opts ...resource.ReadOption) (*traits.Brightness, 
 
 func (m *Model) UpdateBrightness(light *traits.Brightness, opts ...resource.WriteOption) (*traits.Brightness, error) {
 	if m.setLevelFromPreset(light) {
-		opts = append(opts, resource.WithMoreUpdatePaths("level_percent"))
+		// a new slice: opts belongs to the caller, appending in place would write the extra option into the caller's
+		// backing array when it has spare capacity (a slice of options shared by concurrent calls)
+		opts = append(opts[:len(opts):len(opts)], resource.WithMoreUpdatePaths("level_percent"))
 	}
 	res, err := m.brightness.Set(light, opts...)
 	if err != nil {
